@@ -13,6 +13,9 @@ var PropertyTagResolver TagResolver = propertyTokenResolver
 
 func propertyTokenResolver(in string) (string, error) {
 	split := strings.SplitN(in, "#", 2)
+	if len(split) != 2 {
+		return "", fmt.Errorf("property placeholder '%v' should have format 'file#key'", in)
+	}
 	filename, property := split[0], split[1]
 	file, err := os.Open(filename)
 	if err != nil {
